@@ -89,10 +89,14 @@ def gen_history(rng, maxlen, dim):
             h.append(("tell_new", [rng.random() for _ in range(dim)]))
         elif r < 0.91:
             h.append(("tell_pending_new", [rng.random() for _ in range(dim)]))
-        elif r < 0.97:
+        elif r < 0.95:
             h.append(("remove_unfinished",))
+            if rng.random() < 0.5:
+                h.append(("ask", 1))
         else:
+            # everything outstanding is told: the next ask must refine the worst simplex
             h.append(("tell_all",))
+            h.append(("ask", rng.choice([1, 1, 2])))
     return h
 
 
